@@ -313,6 +313,78 @@ def who_may_write(S, rep):
     rep.note("integral_mentions", len(hits))
 
 
+def wrappers_forward_options(S, rep):
+    """wrapper agreement: every subclass of the interaction class must hand its constructor arguments to the base parameter of
+    the same name (reset mode, thread count, coefficients, dx ... are all plain positional values of compatible types, so a
+    transposition still runs), and must not swallow an option the base also has"""
+    base_rel = IBFI.replace(".", "/") + ".py"
+    base_tree = ast.parse(open(os.path.join(S.repo, base_rel)).read())
+    base = next((n for n in base_tree.body if isinstance(n, ast.ClassDef) and n.name == "ImmersedBodyFlowInteraction"), None)
+    binit = next((f for f in base.body if isinstance(f, ast.FunctionDef) and f.name == "__init__"), None) if base else None
+    if binit is None:
+        raise Unsupported("anchor vanished: ImmersedBodyFlowInteraction.__init__")
+    bparams = [a.arg for a in binit.args.args[1:]]
+    bkwonly = [a.arg for a in binit.args.kwonlyargs]
+    n_required = len(bparams) - len(binit.args.defaults)
+    found = 0
+    for root, _, files in os.walk(os.path.join(S.repo, "sopht")):
+        for f in sorted(files):
+            if not f.endswith(".py"):
+                continue
+            path = os.path.join(root, f)
+            rel = os.path.relpath(path, S.repo)
+            tree = ast.parse(open(path).read())
+            for cls in [n for n in ast.walk(tree) if isinstance(n, ast.ClassDef)]:
+                if not any((isinstance(b, ast.Name) and b.id == "ImmersedBodyFlowInteraction") or
+                           (isinstance(b, ast.Attribute) and b.attr == "ImmersedBodyFlowInteraction") for b in cls.bases):
+                    continue
+                init = next((x for x in cls.body if isinstance(x, ast.FunctionDef) and x.name == "__init__"), None)
+                if init is None:
+                    continue        # inherits the base constructor
+                wparams = {a.arg for a in init.args.args[1:]} | {a.arg for a in init.args.kwonlyargs}
+                calls = []
+                for n in ast.walk(init):
+                    if isinstance(n, ast.Call) and isinstance(n.func, ast.Attribute) and n.func.attr == "__init__":
+                        recv = ast.unparse(n.func.value)
+                        if recv == "super()":
+                            calls.append((n, list(n.args)))
+                        elif recv.endswith("ImmersedBodyFlowInteraction"):
+                            calls.append((n, list(n.args[1:])))
+                lab = "%s (%s)" % (cls.name, rel.split("/")[-1])
+                if len(calls) != 1:
+                    rep.ob("C10.w", lab + " calls the base constructor once", False, "%d base-constructor calls" % len(calls), key="C10.w|%s|ncalls" % cls.name)
+                    continue
+                call, pos = calls[0]
+                found += 1
+                if any(isinstance(a, ast.Starred) for a in pos):
+                    raise Unsupported("%s forwards *args to the base constructor" % cls.name)
+                bound = {}
+                for i, a in enumerate(pos):
+                    if i >= len(bparams):
+                        rep.ob("C10.w", lab, False, "too many positional arguments for the base constructor", key="C10.w|%s|arity" % cls.name)
+                        break
+                    bound[bparams[i]] = a
+                for kw in call.keywords:
+                    if kw.arg is not None:
+                        bound[kw.arg] = kw.value
+                wrong = []
+                for prm, a in bound.items():
+                    if isinstance(a, ast.Name) and a.id != prm and a.id in set(bparams) | set(bkwonly):
+                        wrong.append("its `%s` is passed as the base's `%s`" % (a.id, prm))
+                dropped = [q for q in (bparams + bkwonly) if q in wparams and q not in bound]
+                ok = not wrong and not dropped
+                why = "; ".join(wrong + ["its option `%s` is not forwarded" % q for q in dropped]) if not ok else \
+                    "%d arguments bound to the base parameters of the same name" % len(bound)
+                rep.ob("C10.w", lab + " forwards its arguments unchanged", ok, why, key="C10.w|%s|%s" % (cls.name, why[:120] if not ok else ""),
+                       sample={"wrapper": cls.name, "bound": {k: ast.unparse(v)[:40] for k, v in bound.items()}})
+                missing = [q for q in bparams[:n_required] if q not in bound]
+                if missing:
+                    rep.ob("C10.w", lab + " supplies the required arguments", False, "missing %s" % missing, key="C10.w|%s|missing" % cls.name)
+    rep.note("interaction_wrappers", found)
+    if found < 2:
+        raise Unsupported("expected the rigid-body and Cosserat-rod interaction wrappers, found %d subclasses" % found)
+
+
 def run(S, tier, rep):
     rep.rule_text = ("single-writer / effect / def-use rules: the interaction class is instantiated abstractly with a stub forcing grid; "
                      "its entry points are traced; stores into the integral, the flow velocity and instance attributes are enumerated; the "
@@ -323,7 +395,9 @@ def run(S, tier, rep):
         for reset in (True, False):
             check_instance(S, dim, reset, rep)
     who_may_write(S, rep)
+    wrappers_forward_options(S, rep)
     rep.require_min("C10.a", 30)
     rep.require_min("C10.b", 20)
     rep.require_min("C10.d", 8)
+    rep.require_min("C10.w", 2)
     rep.require_min("C10.e", 4)
